@@ -46,11 +46,15 @@ def jobs(tier):
             js.append(dict(name=f"deserialize_modes[{c['name']},n={n}]", fn="deserialize_modes", args=[corpus.closure(types, c["instrs"]), c, n, min(8 if q else 16, corpus.calls_bound(types, c["instrs"], n + 1) + 1), 6 if q else 24], tree="core",
                            collect_models=1, expect=["reader chunked mode is what it was on entry"]))
         js.append(dict(name=f"nested[{c['name']}]", fn="nested_not_chunked", args=[corpus.closure(types, c["instrs"]), c, cfg if q else ccfg], tree="core", collect_models=1))
-    def nests(instrs):
+    def nests(instrs, in_chunk=False):
+        """something whose mode 'in effect' matters: a nested struct, a chunked element inside a chunked region
+        (directly or through a case), a switch inside a chunked region"""
         for i in instrs:
             if i[0] in ("field", "array") and i[2][0] == "struct":
                 return True
-            if i[0] == "chunked" and nests(i[1]):
+            if i[0] == "chunked" and (in_chunk or nests(i[1], True)):
+                return True
+            if i[0] == "switch" and in_chunk:
                 return True
             if i[0] == "switch" and any(nests(c[3]) for c in i[2]):
                 return True
